@@ -127,14 +127,25 @@ Section MatRows.
   Lemma mat_of_wf (m : mat T) (d : list T) :
     wf_mat m -> length d = length (dat m) -> mat_of m d = Some (mkmat (nr m) (nc m) d).
   Proof.
-    intros (Hr & Hc & Hl) Hd. unfold mat_of, matrix_new.
+    intros (Hr & Hc & Hl) Hd. unfold mat_of, matrix_new, new_ok.
     rewrite (proj2 (Nat.ltb_lt _ _) Hr), (proj2 (Nat.ltb_lt _ _) Hc).
     rewrite (proj2 (Nat.eqb_eq _ _)) by lia. reflexivity.
   Qed.
 
+  (** positive shape or the empty 0 x 0 matrix: [Matrix::new] (repaired) rebuilds the result in both cases *)
+  Lemma wf_mat0_length (m : mat T) : wf_mat0 m -> length (dat m) = nr m * nc m.
+  Proof. intros [(_ & _ & Hl)| ->]; [exact Hl|reflexivity]. Qed.
+
+  Lemma mat_of_wf0 (m : mat T) (d : list T) :
+    wf_mat0 m -> length d = length (dat m) -> mat_of m d = Some (mkmat (nr m) (nc m) d).
+  Proof.
+    intros [Hwf| ->] Hd; [apply mat_of_wf; assumption|].
+    cbn [dat length] in Hd. destruct d; [reflexivity|discriminate].
+  Qed.
+
   (** Matrix op f64, &Matrix op f64, Matrix op= f64 *)
-  Lemma mat_op_scalar tr s r (m : mat T) (x : T) :
-    find_row tr s TyF64 = Some r -> is_mat s = true -> wf_mat m ->
+  Lemma mat_op_scalar0 tr s r (m : mat T) (x : T) :
+    find_row tr s TyF64 = Some r -> is_mat s = true -> wf_mat0 m ->
     run_mat_row O r (MMat m) (MSc x) = Some (mkmat (nr m) (nc m) (map (fun e => trait_op O tr e x) (dat m))).
   Proof.
     intros Hf Hs Hwf. destruct (find_row_some _ _ _ _ Hf) as (Hin & Et & Es & Eo).
@@ -145,12 +156,16 @@ Section MatRows.
     rewrite Et, Es, Eo in He. rewrite Et, Hw.
     destruct s; try discriminate; destruct tr; cbn in He; inversion He; subst;
       cbn zeta; cbn [bind]; rewrite ?vs_map, ?vs_mut_map; try reflexivity;
-      apply mat_of_wf; auto; apply map_length.
+      apply mat_of_wf0; auto; apply map_length.
   Qed.
+  Lemma mat_op_scalar tr s r (m : mat T) (x : T) :
+    find_row tr s TyF64 = Some r -> is_mat s = true -> wf_mat m ->
+    run_mat_row O r (MMat m) (MSc x) = Some (mkmat (nr m) (nc m) (map (fun e => trait_op O tr e x) (dat m))).
+  Proof. intros Hf Hs Hwf. exact (mat_op_scalar0 tr s r m x Hf Hs (or_introl Hwf)). Qed.
 
   (** f64 op Matrix, f64 op &Matrix: the scalar is the LEFT operand *)
-  Lemma scalar_op_mat tr o r (x : T) (m : mat T) :
-    find_row tr TyF64 o = Some r -> is_mat o = true -> wf_mat m ->
+  Lemma scalar_op_mat0 tr o r (x : T) (m : mat T) :
+    find_row tr TyF64 o = Some r -> is_mat o = true -> wf_mat0 m ->
     run_mat_row O r (MSc x) (MMat m) = Some (mkmat (nr m) (nc m) (map (fun e => trait_op O tr x e) (dat m))).
   Proof.
     intros Hf Ho Hwf. destruct (find_row_some _ _ _ _ Hf) as (Hin & Et & Es & Eo).
@@ -161,17 +176,21 @@ Section MatRows.
     rewrite Et, Es, Eo in He. rewrite Et, Hw.
     destruct o; try discriminate; destruct tr; cbn in He; inversion He; subst;
       cbn zeta; cbn [bind]; rewrite ?sv_map;
-      apply mat_of_wf; auto; apply map_length.
+      apply mat_of_wf0; auto; apply map_length.
   Qed.
+  Lemma scalar_op_mat tr o r (x : T) (m : mat T) :
+    find_row tr TyF64 o = Some r -> is_mat o = true -> wf_mat m ->
+    run_mat_row O r (MSc x) (MMat m) = Some (mkmat (nr m) (nc m) (map (fun e => trait_op O tr x e) (dat m))).
+  Proof. intros Hf Ho Hwf. exact (scalar_op_mat0 tr o r x m Hf Ho (or_introl Hwf)). Qed.
 
   (** Matrix op= Matrix, Matrix op= &Matrix: equal shapes are required *)
-  Lemma mat_assign_mat tr s o r (m1 m2 : mat T) :
-    find_row tr s o = Some r -> is_mat s = true -> is_mat o = true -> wf_mat m1 -> wf_mat m2 ->
+  Lemma mat_assign_mat0 tr s o r (m1 m2 : mat T) :
+    find_row tr s o = Some r -> is_mat s = true -> is_mat o = true -> wf_mat0 m1 -> wf_mat0 m2 ->
     run_mat_row O r (MMat m1) (MMat m2) =
     if (nr m1 =? nr m2) && (nc m1 =? nc m2)
     then Some (mkmat (nr m1) (nc m1) (map2 (trait_op O tr) (dat m1) (dat m2))) else None.
   Proof.
-    intros Hf Hs Ho (_ & _ & Hl1) (_ & _ & Hl2). destruct (find_row_some _ _ _ _ Hf) as (Hin & Et & Es & Eo).
+    intros Hf Hs Ho Hl1 Hl2. apply wf_mat0_length in Hl1, Hl2. destruct (find_row_some _ _ _ _ Hf) as (Hin & Et & Es & Eo).
     pose proof (row_ok_in r Hin) as Hok.
     destruct (row_ok_inv r Hok) as (_ & _ & _ & fam & w & He & _ & Hw).
     unfold run_mat_row. cbn [data_of].
@@ -184,6 +203,12 @@ Section MatRows.
        cbn [andb guard bind]; rewrite vbin_mut_closed;
        rewrite (proj2 (Nat.eqb_eq _ _)) by congruence; reflexivity).
   Qed.
+  Lemma mat_assign_mat tr s o r (m1 m2 : mat T) :
+    find_row tr s o = Some r -> is_mat s = true -> is_mat o = true -> wf_mat m1 -> wf_mat m2 ->
+    run_mat_row O r (MMat m1) (MMat m2) =
+    if (nr m1 =? nr m2) && (nc m1 =? nc m2)
+    then Some (mkmat (nr m1) (nc m1) (map2 (trait_op O tr) (dat m1) (dat m2))) else None.
+  Proof. intros Hf Hs Ho H1 H2. exact (mat_assign_mat0 tr s o r m1 m2 Hf Hs Ho (or_introl H1) (or_introl H2)). Qed.
 
   (** Matrix op Matrix goes through [broadcast_*]; the equal-shape arm runs the binary kernel.  For ALL operands the
       kernel-level model agrees with C12's model of [broadcast] (whose theorems therefore apply to it) *)
@@ -197,19 +222,35 @@ Section MatRows.
     destruct (length (dat m1) =? length (dat m2)); reflexivity.
   Qed.
 
-  Lemma mat_binop_same_shape t (m1 m2 : mat T) :
-    wf_mat m1 -> wf_mat m2 -> nr m1 = nr m2 -> nc m1 = nc m2 ->
+  Lemma mat_binop_same_shape0 t (m1 m2 : mat T) :
+    wf_mat0 m1 -> wf_mat0 m2 -> nr m1 = nr m2 -> nc m1 = nc m2 ->
     mat_binop O t m1 m2 = Some (mkmat (nr m1) (nc m1) (map2 (tok_fn O t) (dat m1) (dat m2))).
   Proof.
-    intros Hwf1 Hwf2 Er Ec. pose proof Hwf1 as (_ & _ & Hl1). pose proof Hwf2 as (_ & _ & Hl2).
+    intros Hwf1 Hwf2 Er Ec. pose proof (wf_mat0_length _ Hwf1) as Hl1. pose proof (wf_mat0_length _ Hwf2) as Hl2.
     unfold mat_binop, calc_broadcast_shape. cbn [calc_broadcast_shape_fuel].
     rewrite Er, Ec, !Nat.eqb_refl. cbn [andb bind guard].
     rewrite vbin_accepts by congruence. cbn [bind].
-    rewrite <- Er, <- Ec. apply mat_of_wf; auto.
+    rewrite <- Er, <- Ec. apply mat_of_wf0; auto.
     rewrite map2_length'. rewrite Hl1, Hl2, Er, Ec. apply Nat.min_id.
   Qed.
+  Lemma mat_binop_same_shape t (m1 m2 : mat T) :
+    wf_mat m1 -> wf_mat m2 -> nr m1 = nr m2 -> nc m1 = nc m2 ->
+    mat_binop O t m1 m2 = Some (mkmat (nr m1) (nc m1) (map2 (tok_fn O t) (dat m1) (dat m2))).
+  Proof. intros H1 H2. apply mat_binop_same_shape0; left; assumption. Qed.
 
   (** maps, powers and negation keep the shape *)
+  Lemma mat_map_wf0 u (m : mat T) :
+    wf_mat0 m -> mat_map O u m = Some (mkmat (nr m) (nc m) (map (umap_fn O u) (dat m))).
+  Proof. intros H. unfold mat_map. rewrite vmap_map. apply mat_of_wf0; auto. apply map_length. Qed.
+  Lemma mat_powf_wf0 (m : mat T) a :
+    wf_mat0 m -> mat_powf O m a = Some (mkmat (nr m) (nc m) (map (fun x => powf O x a) (dat m))).
+  Proof. intros H. unfold mat_powf. rewrite vpowf_map. apply mat_of_wf0; auto. apply map_length. Qed.
+  Lemma mat_powi_wf0 (m : mat T) n :
+    wf_mat0 m -> mat_powi O m n = Some (mkmat (nr m) (nc m) (vpowi O (dat m) n)).
+  Proof. intros H. unfold mat_powi. apply mat_of_wf0; auto. apply vpowi_length. Qed.
+  Lemma mat_neg_wf0 (m : mat T) :
+    wf_mat0 m -> mat_neg O m = Some (mkmat (nr m) (nc m) (map (neg O) (dat m))).
+  Proof. intros H. unfold mat_neg, vneg. apply mat_of_wf0; auto. apply map_length. Qed.
   Lemma mat_map_wf u (m : mat T) :
     wf_mat m -> mat_map O u m = Some (mkmat (nr m) (nc m) (map (umap_fn O u) (dat m))).
   Proof. intros H. unfold mat_map. rewrite vmap_map. apply mat_of_wf; auto. apply map_length. Qed.
@@ -239,44 +280,66 @@ Proof.
   destruct tr, s, o; cbn; intros H; try congruence; eexists; reflexivity.
 Qed.
 
-(** ** The empty Matrix (0 x 0, as [Matrix::empty()] builds it): every form that builds its result with
-    [Matrix::new] panics ([reshape_mut] refuses a zero dimension), the op-assign forms do not.  This is the known
-    finding [empty-matrix:value-form-panics]; every theorem above is about well-formed (positive) shapes. *)
+(** ** The empty Matrix (0 x 0, as [Matrix::empty()] builds it).  On the ORIGINAL code every form that builds its
+    result with [Matrix::new] panicked there ([reshape_mut] refused every zero dimension; the recorded finding
+    [empty-matrix:value-form-panics]); the repaired [reshape_mut] accepts the request 0 x 0 on empty data, and every
+    form returns the empty matrix.  [Matrix::new] still refuses every other shape with a zero dimension. *)
 Section EmptyMatrix.
   Context {T : Type} (O : Ops T).
-  Definition empty_mat : mat T := mkmat 0 0 [].
+  Local Notation empty_mat := (mkmat 0 0 (@nil T)).
 
-  Lemma mat_of_zero_rows (m : mat T) d : nr m = 0 -> mat_of m d = None.
-  Proof. intros H. unfold mat_of, matrix_new. rewrite H. reflexivity. Qed.
+  Lemma wf_mat0_empty : wf_mat0 empty_mat.
+  Proof. right; reflexivity. Qed.
+
+  Lemma mat_of_zero_dim (m : mat T) d :
+    nr m = 0 \/ nc m = 0 -> ~ (nr m = 0 /\ nc m = 0 /\ d = []) -> mat_of m d = None.
+  Proof.
+    intros Hz Hn. unfold mat_of, matrix_new.
+    destruct (new_ok (length d) (nr m) (nc m)) eqn:E; [|reflexivity]. exfalso.
+    unfold new_ok in E. apply orb_true_iff in E. rewrite !andb_true_iff, !Nat.ltb_lt, !Nat.eqb_eq in E.
+    destruct E as [((Hr & Hc) & _)|((Hr & Hc) & Hl)]; [lia|].
+    apply Hn. repeat split; auto. destruct d; [reflexivity|discriminate].
+  Qed.
 
   Lemma empty_mat_op_scalar tr s r (x : T) :
     find_row tr s TyF64 = Some r -> is_mat s = true ->
-    run_mat_row O r (MMat empty_mat) (MSc x) = if trait_assign tr then Some empty_mat else None.
-  Proof.
-    intros Hf Hs. destruct (find_row_some _ _ _ _ Hf) as (Hin & Et & Es & Eo).
-    pose proof (row_ok_in r Hin) as Hok.
-    destruct (row_ok_inv r Hok) as (_ & _ & _ & fam & w & He & _ & Hw).
-    unfold run_mat_row. cbn [data_of].
-    rewrite (run_row_family O r fam) by (rewrite ?He; cbn; congruence).
-    rewrite Et, Es, Eo in He. rewrite Et, Hw.
-    destruct s; try discriminate; destruct tr; cbn in He; inversion He; subst; reflexivity.
-  Qed.
+    run_mat_row O r (MMat empty_mat) (MSc x) = Some empty_mat.
+  Proof. intros Hf Hs. rewrite (mat_op_scalar0 O tr s r _ x Hf Hs wf_mat0_empty). reflexivity. Qed.
 
   Lemma empty_scalar_op_mat tr o r (x : T) :
     find_row tr TyF64 o = Some r -> is_mat o = true ->
-    run_mat_row O r (MSc x) (MMat empty_mat) = None.
+    run_mat_row O r (MSc x) (MMat empty_mat) = Some empty_mat.
+  Proof. intros Hf Ho. rewrite (scalar_op_mat0 O tr o r x _ Hf Ho wf_mat0_empty). reflexivity. Qed.
+
+  Lemma empty_mat_assign tr s o r :
+    find_row tr s o = Some r -> is_mat s = true -> is_mat o = true ->
+    run_mat_row O r (MMat empty_mat) (MMat empty_mat) = Some empty_mat.
   Proof.
-    intros Hf Ho. destruct (find_row_some _ _ _ _ Hf) as (Hin & Et & Es & Eo).
-    pose proof (row_ok_in r Hin) as Hok.
-    destruct (row_ok_inv r Hok) as (_ & _ & _ & fam & w & He & _ & Hw).
-    unfold run_mat_row. cbn [data_of].
-    rewrite (run_row_family O r fam) by (rewrite ?He; cbn; congruence).
-    rewrite Et, Es, Eo in He. rewrite Et, Hw.
-    destruct o; try discriminate; destruct tr; cbn in He; inversion He; subst; reflexivity.
+    intros Hf Hs Ho. rewrite (mat_assign_mat0 O tr s o r _ _ Hf Hs Ho wf_mat0_empty wf_mat0_empty). reflexivity.
   Qed.
 
   Lemma empty_mat_others t u n a :
-    mat_binop O t empty_mat empty_mat = None /\ mat_map O u empty_mat = None /\
-    mat_powi O empty_mat n = None /\ mat_powf O empty_mat a = None /\ mat_neg O empty_mat = None.
-  Proof. repeat split; try (apply mat_of_zero_rows; reflexivity). Qed.
+    mat_binop O t empty_mat empty_mat = Some empty_mat /\ mat_map O u empty_mat = Some empty_mat /\
+    mat_powi O empty_mat n = Some empty_mat /\ mat_powf O empty_mat a = Some empty_mat /\
+    mat_neg O empty_mat = Some empty_mat.
+  Proof.
+    split; [|split; [|split; [|split]]].
+    - rewrite (mat_binop_same_shape0 O t _ _ wf_mat0_empty wf_mat0_empty eq_refl eq_refl). reflexivity.
+    - rewrite (mat_map_wf0 O u _ wf_mat0_empty). reflexivity.
+    - rewrite (mat_powi_wf0 O _ n wf_mat0_empty). unfold vpowi. cbn [dat nr nc].
+      destruct (n =? 2)%Z; [reflexivity|]. destruct (n =? 3)%Z; reflexivity.
+    - rewrite (mat_powf_wf0 O _ a wf_mat0_empty). reflexivity.
+    - rewrite (mat_neg_wf0 O _ wf_mat0_empty). reflexivity.
+  Qed.
+
+  (** [Matrix::inf_norm] of the empty matrix: [abs] returns the empty matrix, there are no row sums, and
+      [max] of no elements is its NaN seed (as for the empty Vector) *)
+  Lemma empty_mat_inf_norm : mat_inf_norm O empty_mat = Some (nan_ O).
+  Proof. reflexivity. Qed.
+
+  (** a shape with exactly one zero dimension (0 x c, r x 0: reachable only through [reshape_mut] with an inferred
+      dimension on empty data) is still refused by [Matrix::new]: the value forms panic on it *)
+  Lemma degenerate_mat_map_panics u (m : mat T) :
+    (nr m = 0 /\ 0 < nc m) \/ (0 < nr m /\ nc m = 0) -> mat_map O u m = None.
+  Proof. intros H. unfold mat_map. apply mat_of_zero_dim; lia. Qed.
 End EmptyMatrix.
